@@ -38,7 +38,16 @@ def n_cases(tier):
 
 
 def gen_case(rng, tier, index):
-    kind = rng.choice(["large", "large", "reject_n", "reject_empty", "trough", "dups"])
+    kind = rng.choice(["large", "large", "reject_n", "reject_empty", "trough", "dups", "mixed_width"])
+    if kind == "mixed_width":
+        # wells of a labware with >= 100 columns: IDs of three and four characters in one collection (shorter first)
+        R = rng.randint(1, 4)
+        c0 = rng.randint(95, 99)
+        cols = list(range(c0, c0 + rng.randint(2, 8)))
+        ids = [f"{'ABCD'[r]}{c:02d}" for c in cols for r in range(R)]
+        L = len(ids)
+        form = rng.choice(["list", "array", "tuple", f"2d:{R}x{len(cols)}"])
+        return {"n": rng.choice([L, L + 1, 2 * L, rng.randint(1, 3 * L), rng.randint(L, 200)]), "wells": ids, "form": form}
     if kind == "large":
         L = rng.randint(1, 26)
         n = rng.choice([rng.randint(301, 5000), rng.randint(5000, 100000), L * rng.randint(12, 400), L * rng.randint(12, 400) + 1])
